@@ -42,6 +42,12 @@ CHECKS = {
     "C10": ("proof",
             "Lean theorems C10_* (bit/Gray round trips for all widths, one-bit adjacency of successive Gray codes, grid formula, endpoints, box, injectivity, encode∘decode = id, decode∘encode nearest grid point, fixed output length, bits-from-step) over exact rationals; tied to SamplingGrid/GrayCode by exhaustive correspondence over all bit strings of small widths and all small bits-per-variable vectors.",
             "§6 C10", "Lean 4 proof + exact model/implementation correspondence (exhaustive small widths)", "np.rint ties and float rounding of left+h*k observed at 1e-9, not proved"),
+    "C12": ("proof",
+            "Lean theorems C12_*: for EVERY net and every schedule passing the decidable certificate validSchedule with the softmax nodes in one group, the buffer after the forward pass satisfies the node equations (activation of the weighted sum over all incoming connections, duplicates adding, softmax joint); the result is independent of the previous buffer contents; forward(X, W) with a reused buffer equals one fresh pass per weight row; permuting connections with their weights changes nothing; softmax lies on the simplex; the split-softmax counterexample (finding F13). The implementation's own schedule is checked by the certificate on every net (per-instance), and evaluated by the model in floating point against Net.forward.",
+            "§6 C12", "Lean 4 proof modulo a per-instance schedule certificate + Float correspondence + independent reference", "floats (exp, tanh, summation order) compared at 1e-9; theorems over Rat with abstract activations"),
+    "C13": ("proof",
+            "Lean theorems C13_*: every well-formed tree over {+, >} with input-block and hidden-block terminals decodes to a net passing validNet (unique layer-increasing edges, coverage, reachability, activations, disjointness) whose outputs share one source set; on a valid net the `while calculated != purpose` loop terminates within |nodes| passes and returns a valid schedule; shared sources ⇒ joint softmax; the MLP builder's edges are a permutation of the layered specification. Tied by exhaustive correspondence of decoder and builder (canonicalised nets + schedules) over all small trees and hidden tuples, an independent validity oracle, and trained weights of all six weight optimizers.",
+            "§6 C13", "Lean 4 proof + exhaustive small correspondence", "finite forward output is a float fact: observed only"),
     "C14": ("proof",
             "Lean theorems C14_* over Rat: the SelfC* update keeps a strictly positive distribution of the same length with every entry ≥ thr/S, 1 ≤ S ≤ 1+z·thr+K/iters (documented rule entry by entry; invariant over any number of generations); the fittest-operator choice; the PDP* update is a distribution with every entry ≥ thr exactly and unused operators at the floor; draws land in the support / the interval of the cumulative distribution; the next generation's operators are drawn from the UPDATED distribution. Tied by wrappers around _adapt/_choice_operators/_get_new_individ_g of live SelfCGA/SelfCGP/PDPGA/PDPGP: every generation's update recomputed by the model at 1e-9, draws recomputed from mirrored uniforms, the triple applied to each individual compared with the one drawn for it.",
             "§6 C14", "Lean 4 proof (exact rationals) + per-generation trace validation", "probabilities are doubles: the sum is 1 up to rounding; group-mean ties compared on integer-valued fitness only"),
